@@ -1157,3 +1157,86 @@ func c15AsymmetricCodec(c *Ctx, r *Report, rule string) {
 		r.ok(rule, "Caddyfile parsers", "custom readers", "-", "no parser fills a value through its UnmarshalJSON")
 	}
 }
+
+// c14ListsProvisioned: a configured list is a filter that applies whatever the other options hold. In a Provision
+// method, the loop that prepares the entries of one list field of the configuration must not stand on a branch that
+// is taken only when another list field is empty (`if len(m.A) > 0 { ... } else if len(m.B) > 0 { for range m.B`):
+// with both given, the second list is silently ignored - messages that satisfy it no longer match.
+func c14ListsProvisioned(c *Ctx, r *Report, rule string) {
+	r.rule(rule, "matcher Provision: the loop over one exported list field of the configuration is not guarded by the emptiness of another exported list field of the same object (both lists given: both apply)", 5)
+	n := 0
+	for _, fn := range c.Funcs {
+		if fn.Name() != "Provision" || fn.Signature.Recv() == nil || len(fn.Params) == 0 || fn.Pkg == nil || !strings.HasPrefix(fn.Pkg.Pkg.Path(), modPath) {
+			continue
+		}
+		recv := fn.Params[0]
+		// loads of exported slice fields of the receiver
+		fieldOf := func(v ssa.Value) string {
+			ld, ok := v.(*ssa.UnOp)
+			if !ok || ld.Op != token.MUL {
+				return ""
+			}
+			base, _, f, ok := fieldAddr(ld.X)
+			if !ok || base != ssa.Value(recv) || !token.IsExported(f) {
+				return ""
+			}
+			if _, isSl := ld.Type().Underlying().(*types.Slice); !isSl {
+				return ""
+			}
+			return f
+		}
+		for _, b := range fn.Blocks {
+			for _, in := range b.Instrs {
+				// a loop over a list field: len(field) taken in a block that heads a range loop (go/ssa: rangeindex)
+				call, ok := in.(*ssa.Call)
+				if !ok || calleeID(call) != "builtin len" || len(call.Call.Args) != 1 || !strings.Contains(b.Comment, "range") {
+					// ranges are lowered to len + index loops; the length is taken right before the loop
+					if !ok || calleeID(call) != "builtin len" || len(call.Call.Args) != 1 {
+						continue
+					}
+					isRange := false
+					for _, su := range b.Succs {
+						if strings.HasPrefix(su.Comment, "rangeindex") {
+							isRange = true
+						}
+					}
+					if !isRange {
+						continue
+					}
+				}
+				f := fieldOf(call.Call.Args[0])
+				if f == "" {
+					continue
+				}
+				n++
+				var others []string
+				for _, cd := range edgeConds(b) {
+					bo, ok := cd.V.(*ssa.BinOp)
+					if !ok {
+						continue
+					}
+					for _, side := range []ssa.Value{bo.X, bo.Y} {
+						if lc, ok := side.(*ssa.Call); ok && calleeID(lc) == "builtin len" && len(lc.Call.Args) == 1 {
+							if g := fieldOf(lc.Call.Args[0]); g != "" && g != f {
+								// the branch taken is the one on which the other list is empty
+								empty := false
+								k, isK := constInt(bo.Y)
+								switch {
+								case isK && k == 0 && bo.Op == token.GTR && !cd.Truth, isK && k == 0 && bo.Op == token.EQL && cd.Truth, isK && k == 0 && bo.Op == token.NEQ && !cd.Truth, isK && k == 0 && bo.Op == token.LEQ && cd.Truth, isK && k == 1 && bo.Op == token.LSS && cd.Truth, isK && k == 1 && bo.Op == token.GEQ && !cd.Truth:
+									empty = true
+								}
+								if empty {
+									others = append(others, g)
+								}
+							}
+						}
+					}
+				}
+				r.check(len(others) == 0, rule, fname(fn), "range "+f, c.ipos(in), "prepared whatever the other lists hold", "the entries of "+f+" are prepared only where "+strings.Join(dedup(others), ", ")+" is empty: a configuration that gives both lists loses "+f+" without a word - messages that satisfy an entry of it are not matched")
+			}
+		}
+	}
+	if n == 0 {
+		r.bad(rule, "module", "list fields", "-", "no loop over a list field found in the Provision methods")
+	}
+}
